@@ -38,16 +38,22 @@ from tangermeme import ersatz
 LETTERS = 'ACGT'
 
 SCOPE = {
-    'quick': ('compiled functions: every sequence of length <= 8 over alphabets 2-3 and length <= 6 over alphabet 4 '
-              '(one batch per length, lexicographic) x every region 0 <= start < end <= L (+ default end) x n in {1,2} (shuffle) / n = 1 '
-              '(dinucleotide, batch) x 1-2 seeds; alphabet 4 lengths 7-8: all sequences, whole region + default end + 4 sampled regions; dinucleotide n in {2,3}: per-sequence calls on '
-              'all sequences of length <= 5 (whole region); 250 seeded random longer cases (L 9-150, B 1-4, n up to 20, dtypes int8/float32/int64, '
-              'seeds up to 2^31-8).  enumerated walk: every outcome of every internal permutation for every sequence of '
-              'length <= 8 (alphabet 2), <= 7 (alphabet 3), <= 6 (alphabet 4) with n = 1, length <= 5 with n = 2; 150 sampled sequences of the remaining lengths <= 8 (all outcomes each)'),
-    'thorough': ('compiled functions: every sequence of length <= 8 over alphabets 2-4 x every region (+ default end) x n in {1,2,3} (shuffle) / n = 1 (dinucleotide, batch) '
-                 'x 2 seeds; dinucleotide n in {2,3}: per-sequence calls on all sequences of length <= 6 x every region of length >= 3; 4000 seeded random longer cases (L 9-400).  '
-                 'enumerated walk: every outcome of every internal permutation for every sequence of length <= 8 over alphabets 2-4 with n = 1 '
-                 '(467,915 outcomes), length <= 6 with n = 2'),
+    'quick': ('ENUMERATED WALK (python body of _fast_shuffle under an enumerating permutation source, inside the public dinucleotide_shuffle, whole sequence): every outcome of every '
+              'internal permutation for every sequence of length <= 8 (alphabet 2), <= 7 (alphabet 3), <= 6 (alphabet 4) with n = 1 and of length <= 5 with n = 2 '
+              '(one public call per sequence, all outcomes run inside it on the real successor tables, suspect outcomes re-run as their own call); one public call per outcome for length <= 4; '
+              '120 sampled sequences of (alphabet, length) in {(3,8), (4,7), (4,8)}, all outcomes each.  '
+              'COMPILED FUNCTIONS: alphabets 2-4, every length L <= 8, every region 0 <= start < end <= L plus default end with start 0 and 1; '
+              'shuffle with n in {1,2} (2 seeds for n = 1) on one batch of all A^L sequences (every k-th, 4096 sequences, when A^L > 4096 and the region is not the whole sequence); '
+              'dinucleotide_shuffle with n = 1 on one batch of all A^L sequences when A^L <= 512, else every k-th sequence (1024 for the whole region, 128 for other regions); '
+              'dinucleotide_shuffle with n in {2,3}: one call per sequence, all sequences of length 3-5, whole region; '
+              '300 seeded random longer cases for both functions (L 9-150, 1-4 sequences incl. low-complexity ones, random region / default end, n up to 5 resp. 20, '
+              'dtypes int8/float32/int64, seeds in [0, 2^31-8]).  Determinism: every call repeated after disturbing the numpy, numba and torch generators '
+              '(dinucleotide batches: whole-region calls and A^L <= 64 only)'),
+    'thorough': ('ENUMERATED WALK: every outcome of every internal permutation for every sequence of length <= 8 over alphabets 2, 3 and 4 with n = 1 (467,915 outcomes) and of '
+                 'length <= 6 with n = 2 (43,065 outcomes); one public call per outcome for length <= 5.  '
+                 'COMPILED FUNCTIONS: alphabets 2-4, every L <= 8, every region plus default end; shuffle with n in {1,2,3} on all A^L sequences; dinucleotide_shuffle n = 1 on all '
+                 'sequences when A^L <= 4096 or the region is the whole sequence, else every k-th sequence (2048; 8192 for default end); dinucleotide_shuffle n in {2,3}: one call per '
+                 'sequence, all sequences of length 3-6, whole region + 2 sampled regions of length >= 3; 4000 seeded random longer cases (L 9-400)'),
 }
 
 
@@ -574,9 +580,7 @@ def _enumerate_walks(rep, A, seq, n, stats, precise=False):
     stats['walk sequences'] = stats.get('walk sequences', 0) + 1
     for i, tr in enumerate(ses['trails'] or [ses['trail']]):
         rep.case(('walk', A, seq, n, tuple(tr)), nontrivial=bool(ses['returned']) and len(seq) >= 3,
-                 sample=dict(case, outcomes=k) if i == 0 and k >= 4 and not stats.get('sampled%d' % n) else None, section=section)
-    if k >= 4:
-        stats['sampled%d' % n] = 1
+                 sample=dict(case, outcomes=k) if i == 0 else None, section=section)
     if not ses['walked']:
         stats['walk not reached'] = stats.get('walk not reached', 0) + 1
     if ses.get('unsupported') and 'unsupported' not in stats:
@@ -759,7 +763,7 @@ def run(rep):
             _do_call(rep, case, ('R', fn, k), fn + '-random', stats, sample=case if k < 1 else None)
     mark('random')
     rep.note('elapsed after each part: ' + ', '.join(marks))
-    rep.note('statistics: ' + ', '.join('%s=%s' % kv for kv in sorted(stats.items()) if not kv[0].startswith('sampled')))
+    rep.note('statistics: ' + ', '.join('%s=%s' % kv for kv in sorted(stats.items())))
     rep.note('calls that raise are allowed by the statement (it speaks about returned sequences); on the pinned tree '
              'dinucleotide_shuffle raises for every region of length <= 2 and, for n > 1, when all shuffles coincide')
 
